@@ -508,6 +508,7 @@ Definition handle (s : state) (m : msg) : hres :=
               | None => {| v_pk := pk; v_jailed := false; v_status := 0; v_tokens := 0; v_unstime := 0 |} end in
     (* ValidateValidatorStaking *)
     if negb (v_status v0 =? 0)%N then HErr s
+    else if (match aget (sinfo s) a with Some si => si_tomb si | None => false end) then HErr s   (* tombstoned: never again (F24, repaired) *)
     else if amt <? p_min_stake (pp s) then HErr s
     else if bal s a <? amt then HErr s
     else
